@@ -1069,7 +1069,7 @@ def mon_c16(ix: Index):  # noqa: C901, PLR0912
             if want_big is False and rc:
                 out.append(V("C16", "C16/small-result-marked-replay-children", "%s result is within the limit but ReplayChildren is set" % path, a["seq"]))
             if rc:
-                rc_ctx[u["Id"]] = a["seq"]
+                rc_ctx.setdefault(u["Id"], a["seq"])
         if u.get("Type") == "CONTEXT" and u.get("Action") == "FAIL":
             path = ix.id2path.get(u["Id"], "?")
             m = re.match(r"^(.*)/b(\d+)$", path)
